@@ -149,11 +149,14 @@ func Digest(r io.Reader, hashFunc crypto.Hash) (*CabinetDigest, error) {
 			return nil, err
 		}
 	}
-	// ensure there is nothing after the cabinet and signature
-	if _, err := r.Read(make([]byte, 1)); err == nil {
-		return nil, errors.New("trailing garbage after cabinet")
-	} else if err != io.EOF {
+	// ensure there is nothing after the cabinet and signature. Drain the reader instead of
+	// probing it with a single Read: a reader may answer a Read with (0, nil), and it may
+	// return io.EOF together with the last byte, so the error of one Read says nothing
+	// about whether data was left.
+	if n, err := io.Copy(io.Discard, r); err != nil {
 		return nil, err
+	} else if n > 0 {
+		return nil, errors.New("trailing garbage after cabinet")
 	}
 	var imprint []byte
 	if d != nil {
